@@ -85,7 +85,9 @@ func (k *KVStore) SetConfig(c *storage.Config) {
 func (k *KVStore) makeTable() error {
 	if len(k.tables) != 0 {
 		head := k.tables[len(k.tables)-1]
-		head.SetState(table.ReadOnlyState)
+		if head.State() == table.ReadWriteState {
+			head.SetState(table.ReadOnlyState)
+		}
 
 		for i, t := range k.tables {
 			if t.State() == table.RecycledState {
@@ -189,13 +191,22 @@ func (k *KVStore) deleteSupersededVersions(hkey uint64) {
 	}
 }
 
+// hasWritableTable returns true if the last table accepts new entries. The last table
+// may be a read-only or recycled one after TransferIterator.Drop removed the latest table.
+func (k *KVStore) hasWritableTable() bool {
+	if len(k.tables) == 0 {
+		return false
+	}
+	return k.tables[len(k.tables)-1].State() == table.ReadWriteState
+}
+
 // PutRaw sets the raw value for the given key.
 func (k *KVStore) PutRaw(hkey uint64, value []byte) error {
 	if uint64(len(value)) > k.tableSize {
 		return storage.ErrEntryTooLarge
 	}
 
-	if len(k.tables) == 0 {
+	if !k.hasWritableTable() {
 		if err := k.makeTable(); err != nil {
 			return err
 		}
@@ -230,7 +241,7 @@ func (k *KVStore) Put(hkey uint64, value storage.Entry) error {
 		return storage.ErrEntryTooLarge
 	}
 
-	if len(k.tables) == 0 {
+	if !k.hasWritableTable() {
 		if err := k.makeTable(); err != nil {
 			return err
 		}
